@@ -359,6 +359,7 @@ type c10Expect struct {
 	CustomPlens     []int                 // recording builder: frame payload length per datagram (nil: unknown)
 	CheckBuilder    quic.QUICFrameBuilder // the builder whose bounds apply (when the spec carries a recording proxy)
 	HasCheckBuilder bool
+	PNOffset        int64 // packets the previous connection of the same Dial already sent (Version Negotiation re-creation)
 	Truncated       bool // the flight was cut short (error / call limit): no completeness check
 }
 
@@ -427,7 +428,7 @@ func c10CheckFlight(e *c10Expect, dgs [][]byte) (fails []c10Fail, pkts []*c10Pkt
 		reframes = false
 	}
 	for i, dg := range dgs {
-		want := wantPN + int64(i)
+		want := wantPN + e.PNOffset + int64(i)
 		p, err := c10Open(dg, keyDCID, largest, -1)
 		if err != nil {
 			// diagnose: does it open with the packet number the spec asked for?
@@ -486,7 +487,7 @@ func c10CheckFlight(e *c10Expect, dgs [][]byte) (fails []c10Fail, pkts []*c10Pkt
 		}
 		switch {
 		case len(ips.InitPacketNumberLengths) > 0:
-			k := i
+			k := i + int(e.PNOffset) // the list is indexed by packet number - InitPacketNumber
 			if k >= len(ips.InitPacketNumberLengths) {
 				k = len(ips.InitPacketNumberLengths) - 1
 			}
@@ -841,6 +842,7 @@ func c10RandomLength(b quic.QUICFrameBuilder, i int) int {
 // ---- whole dials -----------------------------------------------------------------------
 
 type c10Flight struct {
+	All       [][]byte // every client datagram of the dial (Version Negotiation scenario only)
 	Datagrams [][]byte
 	DialErr   string
 	Completed bool
@@ -860,8 +862,15 @@ func (s *c10FixedTokenStore) Put(string, *quic.ClientToken) {}
 // are captured (the first flight; the first PTO is later). Otherwise the real server answers
 // and the flight is what the client sent before the first server datagram.
 func c10Dial(sp *quic.QUICSpec, conf *quic.Config, blackhole bool) (fl c10Flight, err error) {
+	return c10DialSrv(sp, conf, nil, blackhole)
+}
+
+// c10DialSrv: srvConf != nil selects the Version Negotiation scenario: the server's
+// configuration (e.g. Versions {v2} against a client offering {v1, v2}) and ALL datagrams
+// the client sent during the dial are returned in fl.All.
+func c10DialSrv(sp *quic.QUICSpec, conf *quic.Config, srvConf *quic.Config, blackhole bool) (fl c10Flight, err error) {
 	berr := inBubble(func() {
-		e, err2 := newSimEnv(simOpts{Spec: sp, ClientConf: conf})
+		e, err2 := newSimEnv(simOpts{Spec: sp, ClientConf: conf, ServerConf: srvConf})
 		if err2 != nil {
 			err = err2
 			return
@@ -899,11 +908,101 @@ func c10Dial(sp *quic.QUICSpec, conf *quic.Config, blackhole bool) (fl c10Flight
 			}
 			fl.Datagrams = append(fl.Datagrams, d.Data)
 		}
+		if srvConf != nil {
+			for _, d := range e.Router.log {
+				if d.Dir == 0 {
+					fl.All = append(fl.All, d.Data)
+				}
+			}
+		}
 		e.Router.mu.Unlock()
 		e.Close()
 	})
 	if berr != nil && err == nil {
 		err = berr
+	}
+	return
+}
+
+// ---- Version Negotiation: one Dial, two connections ---------------------------------------
+
+type c10VNPacket struct {
+	Version uint32
+	PN      int64
+	PNLen   int
+}
+
+// c10DialVN dials with Config.Versions {v1, v2} a server that only speaks v2: the server
+// answers the v1 Initial with a Version Negotiation packet and the SAME Dial call re-creates
+// the connection with v2, continuing the Initial packet number space. Every client Initial
+// of both connections is opened with the Initial keys of its own version and of the first
+// DCID used with that version.
+func c10DialVN(sp *quic.QUICSpec) (pkts []c10VNPacket, fl c10Flight, err error) {
+	conf := &quic.Config{Versions: []quic.Version{quic.Version1, quic.Version2}}
+	fl, err = c10DialSrv(sp, conf, &quic.Config{Versions: []quic.Version{quic.Version2}}, false)
+	if err != nil {
+		return
+	}
+	keyDCID := map[uint32][]byte{}
+	largest := map[uint32]int64{}
+	for _, dg := range fl.All {
+		if len(dg) < 7 || dg[0]&0x80 == 0 {
+			continue // short header
+		}
+		ver := binary.BigEndian.Uint32(dg[1:5])
+		typ := dg[0] >> 4 & 3
+		if (ver == 0x6b3343cf && typ != 1) || (ver != 0x6b3343cf && typ != 0) {
+			continue // Handshake / 0-RTT
+		}
+		if _, ok := largest[ver]; !ok {
+			largest[ver] = -1
+		}
+		p, oerr := c10Open(dg, keyDCID[ver], largest[ver], -1)
+		if oerr != nil && p != nil && strings.HasPrefix(oerr.Error(), "AEAD") && len(pkts) > 0 {
+			// a receiver without the previous connection's state: try the next number
+			p, oerr = c10Open(dg, keyDCID[ver], largest[ver], pkts[len(pkts)-1].PN+1)
+		}
+		if oerr != nil {
+			err = fmt.Errorf("client Initial (version %#x, %d bytes) does not open: %v", ver, len(dg), oerr)
+			return
+		}
+		if keyDCID[ver] == nil {
+			keyDCID[ver] = p.DCID
+		}
+		if p.PN > largest[ver] {
+			largest[ver] = p.PN
+		}
+		pkts = append(pkts, c10VNPacket{ver, p.PN, p.PNLen})
+	}
+	return
+}
+
+// c10CheckVN states the property for the two connections of one Dial: packet numbers are
+// consecutive from InitPacketNumber across the re-creation, and each is encoded in
+// InitPacketNumberLengths[min(pn - InitPacketNumber, n-1)] bytes (or the single override).
+func c10CheckVN(sp *quic.QUICSpec, pkts []c10VNPacket) (fails []c10Fail) {
+	ips := &sp.InitialPacketSpec
+	sawV2 := false
+	for i, p := range pkts {
+		if p.Version == 0x6b3343cf {
+			sawV2 = true
+		}
+		if want := int64(ips.InitPacketNumber) + int64(i); p.PN != want {
+			fails = append(fails, c10Fail{"vn-pn", fmt.Sprintf("client Initial #%d (version %#x) has packet number %d, expected %d: numbers must continue across the re-creation (packets: %v)", i, p.Version, p.PN, want, pkts)})
+			break
+		}
+		wantLen := 0
+		if n := len(ips.InitPacketNumberLengths); n > 0 {
+			wantLen = int(ips.InitPacketNumberLengths[min(int(p.PN-int64(ips.InitPacketNumber)), n-1)])
+		} else if ips.InitPacketNumberLength != 0 {
+			wantLen = int(ips.InitPacketNumberLength)
+		}
+		if wantLen != 0 && p.PNLen != wantLen {
+			fails = append(fails, c10Fail{"vn-pn-len", fmt.Sprintf("client Initial #%d (version %#x, packet number %d) is encoded in %d byte(s), InitPacketNumberLengths%v[min(%d-%d, n-1)] = %d (packets (version, pn, len): %v)", i, p.Version, p.PN, p.PNLen, ips.InitPacketNumberLengths, p.PN, ips.InitPacketNumber, wantLen, pkts)})
+		}
+	}
+	if !sawV2 || len(pkts) < 2 {
+		fails = append(fails, c10Fail{"vn-capture", fmt.Sprintf("the dial was not re-created with version 2 (packets: %v)", pkts)})
 	}
 	return
 }
@@ -1139,6 +1238,33 @@ func runSimInitial(w *bufio.Writer, seed uint64, n int, args []string) {
 					s = append(s, fmt.Sprint(len(d)))
 				}
 				sizes[strings.Join(s, "+")]++
+			}
+		}
+		// one Dial re-created after Version Negotiation (server speaks v2 only)
+		for j := 0; j < 2+n/10; j++ {
+			sp, err := specFor(name)
+			if err != nil {
+				break
+			}
+			variant := "parrot"
+			if j%2 == 1 {
+				variant = "list"
+				sp.InitialPacketSpec.InitPacketNumber = uint64(r.Range(0, 9))
+				sp.InitialPacketSpec.InitPacketNumberLength = 0
+				sp.InitialPacketSpec.InitPacketNumberLengths = []quic.PacketNumberLen{quic.PacketNumberLen(r.Range(1, 4)), quic.PacketNumberLen(r.Range(1, 4)), quic.PacketNumberLen(r.Range(1, 4)), quic.PacketNumberLen(r.Range(1, 4))}
+			}
+			pkts, fl, err := c10DialVN(sp)
+			dist["vn-dials"]++
+			detail := fmt.Sprintf("quicid=%s variant=%s spec{%s} dialErr=%q", name, variant, c10SpecString(sp), fl.DialErr)
+			if err != nil {
+				rep.fail(k+"vn-capture", err.Error(), detail)
+				continue
+			}
+			for _, f := range c10CheckVN(sp, pkts) {
+				rep.fail(k+f.key, f.desc, detail)
+			}
+			if fl.Completed {
+				dist["vn-handshake-ok"]++
 			}
 		}
 		for t, c := range tokens {
